@@ -191,6 +191,9 @@ func c01Degenerate() []string {
 		"x = nil; p = &x; *p = p; \"a\" * p", "x = nil; p = &x; *p = p; p ? 1 : 2", "x = nil; p = &x; *p = p; make([]int64, p)", "x = nil; p = &x; *p = p; !p",
 		"x = [1, 2]; p = &x; p == p", "a = make(struct{A interface}); a.A = [1]; b = a; a == b", "a = make(struct{A interface}); a.A = {}; a in [a]",
 		"a = make(struct{A interface}); a.A = func() { }; switch a {\ncase a: 1\n}", "f = func() { }; p = &f; p == p", "m = {}; p = &m; [p] == [p]",
+		// several targets, one right-hand side that is an empty or too short list
+		"a, b = []", "var a, b = []", "a, b, c = make([]int64, 0)", "x = [1, 2]; a, b = x[2:]", "func f() { return [] }; a, b = f()", "a, b = keys({})", "a, b, c = [1]",
+		"var a, b, c = [nil]", "a, b = \"\"", "a, b = nothing", "a[0], b = []", "list[0], list[9] = [1, 2]", "a, b = list[3:3]", "if true { a, b = [] }", "try { var a, b = [] } catch e { }",
 		"ch <- ch", "ch2 = make(chan int64); ch2 <- \"s\"", "x, ok = <- nothing", "x, ok = <- ch", "for x in ch { break }", "go probe(1)", "go nothing()", "go n", "go mod.v()",
 	}
 }
